@@ -204,7 +204,8 @@ def run_spec(spec: dict) -> dict:
         rep["outputs"] = _canon_outputs(out)
     except BaseException as e:  # SystemExit of a task body must be reported, not obeyed
         rep["outcome"] = core.exc_tag(e)
-        rep["msg"] = str(e)[:600]
+        m = str(e)
+        rep["msg"] = m if len(m) <= 3600 else m[:600] + " … " + m[-3000:]
         rep["notes"] = [n[:300] for n in getattr(e, "__notes__", [])][:3]
     cwd1 = os.getcwd()
     rep["cwd"] = "orig" if cwd1 == cwd0 else ("jobDir" if Path(cwd1).parent == Path(spec["cache"]).resolve() else "other")
@@ -628,9 +629,25 @@ def act_index(positions: dict, act: str, occurrence: int = 1) -> int:
 # validation of the regenerated skeleton against real event logs
 
 
-def validate_skeleton(ctx, zy: Zygote, positions_run: dict) -> int:
+def safe_skeletons(ctx):
+    """The skeleton trees, or None when the extractor cannot read the current source (the tie is then broken —
+    recorded — and the correspondence goes on comparing the implementation with the property alone)."""
+    from harness.extractors import job_skeleton
+
+    try:
+        return job_skeleton.skeletons()
+    except Exception as e:
+        if not getattr(ctx, "_extract_noted", False):
+            ctx._extract_noted = True
+            ctx.tie_broken.append({"kind": "extraction", "extractor": "job_skeleton.skeletons", "detail": f"{core.exc_tag(e)}: {e}"})
+        return None
+
+
+def validate_skeleton(ctx, zy: Zygote, positions_run: dict | None) -> int:
     """normal / cached / failing runs of a python task: the hook points the real run passes (events.log of the
     guarded `vp` calls) must be the ones the generated skeleton predicts.  A mismatch breaks the tie."""
+    if positions_run is None:
+        return 0
     n_bad = 0
     scen = [("normal", {}, None, False), ("cached", {}, None, True), ("failing", {"bodyFails": False}, "fail", False)]
     queries, logs = [], []
